@@ -193,7 +193,11 @@ class Message(BaseMessage):
 
         This is the reverse of str(msg).
         """
-        return cl(**str2msg(text))
+        msgdict = str2msg(text)
+        # Names in the text are attribute names, never arguments of the
+        # constructor (such as skip_checks).
+        check_msgdict(msgdict)
+        return cl(**msgdict)
 
     def __len__(self):
         if self.type == 'sysex':
